@@ -2,7 +2,8 @@
 
 Space: class sets C0..Cn-1 (each: field f, static field s, method m with a generated body, static method t) with an
 interaction matrix -- for every ordered pair (i, j): none / Ci.m calls Cj.m and Cj.t / reads Cj.f and writes Cj.s /
-new-instance + const-class Cj / loads the string Cj also loads / all of these; every class also calls Lext/E;->x(I)V.
+new-instance + const-class Cj / loads the string Cj also loads / all of these; every class also calls Lext/E;->x(I)V and
+instantiates itself (a self reference, which must stay ignored whatever the processing order).
 quick: the full-interaction 4-class model x ALL 75 ordered set partitions into 1..4 DEX files, and 3 classes x all 2^6
 {none, all} matrices x all 13 ordered partitions.  thorough: additionally 3 classes x all 5^6 single-interaction matrices x 13
 and 4 classes x all 2^12 {none, all} matrices x 75.
